@@ -204,6 +204,22 @@ Definition linearizable {Ob} (sstep : Ob -> nat -> op -> option (Ob * nat)) (o0 
   | None => false
   end.
 
+(* the same for a history in which calls are still pending at the end because they block for ever
+   (a blocking Borrow on a limit of 0): a pending call has no response and is left out -- it must not
+   have had any effect, which the rest of the history then has to confirm *)
+Fixpoint drop_pending (h : list ev) (answered : list nat) : list ev :=
+  match h with
+  | [] => []
+  | e :: r =>
+      match e_k e with
+      | KInv => if existsb (fun e' => ekind_eqb (e_k e') KRet && Nat.eqb (e_t e') (e_t e)) r
+                then e :: drop_pending r answered else drop_pending r answered
+      | _ => e :: drop_pending r answered
+      end
+  end.
+Definition linearizable_pending {Ob} (sstep : Ob -> nat -> op -> option (Ob * nat)) (o0 : Ob) (h : list ev) : bool :=
+  linearizable sstep o0 (drop_pending h []).
+
 (* ------------------------------------------------------------------ Pool (history monitor)
    events: KInv 0 b=now (Get) | KRet 0 a=id b=now | KInv 1 a=id b=now (Put) | KRet 1 b=now
            | KBegin 3 c=2 (the create callback starts) | KBegin 3 a=id c=0 (it returns resource id)
@@ -355,10 +371,13 @@ Definition pool_final_ok (limit : nat) (h : list ev) : bool :=
    events: KInv 0 b=now | KBegin 0 b=now (the user fetch starts) | KEnd 0 a=value c=1 if fetch
            returned an error (a may be non-nil all the same) | KRet 0 a=resource (0 = nil) b=1 if an
            error is returned.
-   Sharing contract: a Get only ever hands out a resource that a SUCCESSFUL fetch returned; once
-   some Get has returned a resource without error, every Get invoked later returns that same
-   resource without error (no refetch, no replacement); a fetch is attempted only if none was
-   attempted before or more than the refresh interval has passed since the last attempt. *)
+   Sharing contract (what the code documents: "return the resource if there is one, else try to
+   fetch it"; refresh interval on failure): a Get only ever hands out a resource that a SUCCESSFUL
+   fetch returned; once some Get has returned a resource without error, every Get invoked later
+   returns a (successfully fetched) resource without error and does not fetch; a fetch is attempted
+   only if none was attempted before or more than the refresh interval has passed since the last
+   attempt.  (Not demanded: that the resource handed out never changes -- two overlapping fetches
+   that both succeed replace it on the unchanged code; out-of-statement observation, see c18.py.) *)
 Record ir_mon := mkirm { im_goods : list nat; im_shared : option nat; im_snap : list (nat * option nat);
                          im_lastb : option nat }.
 Definition ir_mon0 : ir_mon := mkirm [] None [] None.
@@ -368,16 +387,17 @@ Definition ir_mon_step (interval : nat) (m : ir_mon) (e : ev) : option ir_mon :=
   match e_k e with
   | KInv => Some (mkirm (im_goods m) (im_shared m) (aset Nat.eqb t (im_shared m) (im_snap m)) (im_lastb m))
   | KBegin =>
+      match alookup Nat.eqb t (im_snap m) with Some (Some _) => None | _ =>   (* no fetch once a resource is shared *)
       match im_lastb m with
       | None => Some (mkirm (im_goods m) (im_shared m) (im_snap m) (Some (e_b e)))
       | Some l => if Nat.ltb (l + interval) (e_b e)
                   then Some (mkirm (im_goods m) (im_shared m) (im_snap m) (Some (e_b e))) else None
-      end
+      end end
   | KEnd => Some (mkirm (if Nat.eqb (e_c e) 0 then e_a e :: im_goods m else im_goods m) (im_shared m) (im_snap m) (im_lastb m))
   | KRet =>
       if (Nat.eqb (e_a e) 0 || existsb (Nat.eqb (e_a e)) (im_goods m)) &&
          match alookup Nat.eqb t (im_snap m) with
-         | Some (Some v) => Nat.eqb (e_a e) v && Nat.eqb (e_b e) 0
+         | Some (Some _) => negb (Nat.eqb (e_a e) 0) && Nat.eqb (e_b e) 0
          | _ => true
          end
       then Some (mkirm (im_goods m)
